@@ -54,7 +54,7 @@ def run(ctx):
     ctx.trusted = cm.STD_TRUST
     ctx.tested_not_proved = ["binary64 sums equal the real-number sums to 1e-9 relative (tested with exact rationals)",
                              "input grids' cell values unchanged (tested before/after; dtype conversion is Python glue)"]
-    proved = cm.prove(ctx)
+    proved = cm.prove_with_kernels(ctx, ["c_accumulate", "c_downstream", "c_neighbours"])
     cm.use_impl()
     from hydrodiy.gis import grid as hygrid
     rng = ctx.rng
